@@ -9,8 +9,12 @@ import numpoly
 def snap(obj, depth=0):
     if isinstance(obj, numpoly.ndpoly):
         raw = numpy.ndarray.view(obj, numpy.ndarray)
+        try:
+            exps = numpy.asarray(obj.exponents).tolist()
+        except Exception as err:  # noqa: BLE001
+            exps = f"unreadable: {type(err).__name__}"
         return ("ndpoly", tuple(obj.shape), tuple(obj.strides), str(raw.dtype), tuple(obj.names),
-                tuple(str(k) for k in obj.keys), str(obj.dtype), raw.tobytes())
+                tuple(str(k) for k in obj.keys), str(obj.dtype), raw.tobytes(), exps)
     if isinstance(obj, numpy.ndarray):
         return ("ndarray", tuple(obj.shape), tuple(obj.strides), str(obj.dtype),
                 obj.tobytes() if obj.dtype != object else repr(obj.tolist()))
@@ -25,7 +29,7 @@ def describe_change(before, after):
     if before[0] != after[0]:
         return f"type {before[0]} -> {after[0]}"
     if before[0] == "ndpoly":
-        names = ["kind", "shape", "strides", "struct dtype", "names", "keys", "dtype", "bytes"]
+        names = ["kind", "shape", "strides", "struct dtype", "names", "keys", "dtype", "bytes", "exponents"]
     elif before[0] == "ndarray":
         names = ["kind", "shape", "strides", "dtype", "bytes"]
     else:
